@@ -6,11 +6,30 @@ import (
 	"fmt"
 	"strings"
 
+	"github.com/aperturerobotics/bifrost/crypto"
 	"github.com/aperturerobotics/bifrost/peer"
 	"github.com/klauspost/compress/s2"
 
 	"verif/harness/lib"
 )
+
+// formatCtxs are context strings that contain fmt / template / path meta characters: '%' verbs that
+// differ only in flags or width, "%%", a trailing '%', explicit argument indexes, braces, backslashes.
+// A context must be bound as an opaque byte string: no two DIFFERENT entries may ever act as the same
+// context (mutation sentinel: the context reaching a format string or a template).
+var formatCtxs = []string{
+	"example.com 2024-01-01 00:00:00 discount 100%d v1",
+	"example.com 2024-01-01 00:00:00 discount 100%+d v1",
+	"example.com 2024-01-01 00:00:00 discount 100%05d v1",
+	"example.com 2024-01-01 00:00:00 discount 100% d v1",
+	"example.com 2024-01-01 00:00:00 discount 100%% v1",
+	"example.com 2024-01-01 00:00:00 discount 100% v1",
+	"example.com 2024-01-01 00:00:00 discount 100%!d(MISSING) v1",
+	"trailing percent %",
+	"trailing percent %%",
+	"%s", "%v", "%[1]s", "%[2]s", "%!s(MISSING)", "%!v(MISSING)",
+	"{{.}}", "{{.Context}}", "$1", "\\n", "\n",
+}
 
 var encCtxs = []string{"bifrost/test encrypt v1", "", "example.com 2019-12-25 16:18:03 session tokens v1", "ctx with \x00 and \xff", "bifrost/test encrypt v2"}
 
@@ -20,11 +39,27 @@ func (e *engine) encCase(pub []byte, ctx string, msg []byte, gen string, expectO
 	op := fmt.Sprintf("encrypt.enc pub=%s ctx=%s msg=%s", lib.Hex(pub), lib.Hex([]byte(ctx)), lib.Hex(msg))
 	model, _ := e.oracleQuery(op)
 	var ct []byte
+	// the wrapper peer.EncryptToPubKey (observe_at of the property) is alternated with the direct call
+	// in every class whose recipient key can be wrapped (32 bytes)
+	via := "direct"
+	if len(pub) == 32 && e.alternate("enc:"+gen) {
+		via = "wrapper"
+	}
 	impl := outcome(func() ([]byte, error) {
+		if via == "wrapper" {
+			pk, err := crypto.UnmarshalEd25519PublicKey(clone(pub))
+			if err != nil {
+				panic(err)
+			}
+			c, err := peer.EncryptToPubKey(pk, ctx, msg)
+			ct = c
+			return c, err
+		}
 		c, err := peer.EncryptToEd25519(ed25519.PublicKey(pub), ctx, msg)
 		ct = c
 		return c, err
 	})
+	e.rep.Branches["enc.via-"+via+":"+gen]++
 	mon := ""
 	switch {
 	case impl == "panic":
@@ -47,12 +82,26 @@ func (e *engine) encCase(pub []byte, ctx string, msg []byte, gen string, expectO
 func (e *engine) decCase(priv []byte, ctx string, ct []byte, gen string, want *[]byte, orig []byte, viaPrivKey *key) string {
 	op := fmt.Sprintf("encrypt.dec priv=%s ctx=%s ct=%s", lib.Hex(priv), lib.Hex([]byte(ctx)), lib.Hex(ct))
 	model, tr := e.oracleQuery(op)
+	// every class is run alternately through peer.DecryptWithPrivKey (the wrapper the property names)
+	// and peer.DecryptWithEd25519, whenever the key bytes can be wrapped (64 bytes)
+	cls := genClass(gen)
+	if viaPrivKey == nil && len(priv) == 64 && e.alternate("dec:"+cls) {
+		viaPrivKey = keyFromRaw(ed25519.PrivateKey(clone(priv)))
+	}
+	via := "direct"
+	if viaPrivKey != nil {
+		via = "wrapper"
+	}
+	e.rep.Branches["dec.via-"+via+":"+cls]++
 	impl := outcome(func() ([]byte, error) {
 		if viaPrivKey != nil {
 			return peer.DecryptWithPrivKey(viaPrivKey.sk, ctx, clone(ct))
 		}
 		return peer.DecryptWithEd25519(ed25519.PrivateKey(priv), ctx, clone(ct))
 	})
+	if via == "wrapper" {
+		gen += "/via-DecryptWithPrivKey"
+	}
 	mon := ""
 	switch {
 	case impl == "panic":
@@ -67,6 +116,9 @@ func (e *engine) decCase(priv []byte, ctx string, ct []byte, gen string, want *[
 		mon = "decryption with the matching key and context does not return the original message (" + gen + ")"
 	case want == nil && orig != nil && strings.HasPrefix(impl, "ok") && impl != "ok "+lib.Hex(orig):
 		mon = "decryption returns other plaintext (" + gen + ")"
+	}
+	if mon != "" && e.note != "" {
+		mon += " " + e.note
 	}
 	// branch: how far the model got
 	br := "dec." + branchOf(model)
@@ -85,6 +137,23 @@ func (e *engine) decCase(priv []byte, ctx string, ct []byte, gen string, want *[
 	}
 	e.rep.Compare(op, model, impl, br, "encrypt.dec:"+gen, mon)
 	return impl
+}
+
+// alternate flips a per-class toggle: the first case of a class goes through the wrapper.
+func (e *engine) alternate(class string) bool {
+	if e.alt == nil {
+		e.alt = map[string]int{}
+	}
+	e.alt[class]++
+	return e.alt[class]%2 == 1
+}
+
+// genClass strips the per-length suffix of the random classes.
+func genClass(gen string) string {
+	if strings.HasPrefix(gen, "random-len-") {
+		return "random-len"
+	}
+	return gen
 }
 
 func bptr(b bool) *bool { return &b }
@@ -177,6 +246,11 @@ func (e *engine) craft(pub []byte, ctx string, msg []byte, o craftOpts) []byte {
 func (e *engine) runC12() {
 	e.rep.Rule = "EncryptToEd25519/DecryptWithEd25519 (and the PubKey/PrivKey wrappers): messages 0..64 KiB x contexts (incl. empty, NUL, non-UTF-8) x keys, ciphertext equality with the model skeleton over an independent primitive pipeline; wrong key, wrong context, context suffix/prefix; bit flips at every region boundary, truncation at every boundary, extension, prefix re-wrap from public data, grafted prefix/body, sign-alias of the message key; random ciphertexts of every length 0..80 (x6); malformed keys and small-order / non-curve recipient keys; distinct = distinct op line"
 	e.rep.Require("enc.ok", "enc.err", "dec.ok", "dec.err@guard", "dec.err@blkDec", "dec.err@edToMont-fails", "dec.err@kdf", "dec.err@open-fails", "dec.err@edToMont", "dec.err@s2dec-fails", "reencrypted")
+	// every negative class must have gone through the wrapper the property names AND the direct function
+	for _, c := range []string{"wrong-key", "wrong-context", "context-suffix", "context-prefix", "bit-flip", "truncated", "extended", "shifted", "rewrapped-prefix", "grafted", "foreign-message-key", "sealed-garbage", "low-order-message-key", "random-len", "random-long", "big-bit-flip", "big-truncated", "reencrypted/sign-alias"} {
+		e.rep.Require("dec.via-wrapper:"+c, "dec.via-direct:"+c)
+	}
+	e.rep.Require("enc.via-wrapper:small-order-recipient", "enc.via-direct:small-order-recipient", "enc.via-wrapper:random-recipient", "enc.via-direct:random-recipient", "enc.via-wrapper:honest", "enc.via-direct:honest", "dec.nil-key", "enc.nil-key")
 	keys := []*key{e.newKey(), e.newKey(), e.newKey()}
 	sizes := []int{0, 1, 2, 15, 16, 17, 31, 32, 33, 100, 1000, 4096}
 	n := 14 * e.a.Scale
@@ -188,7 +262,7 @@ func (e *engine) runC12() {
 		case i < len(sizes):
 			msg = e.rng.Bytes(sizes[i])
 		case i == len(sizes):
-			msg = e.rng.Bytes(65536)
+			msg = e.rng.Bytes(65536 + e.rng.Intn(3000)) // 64 KiB+: more than one S2 block
 		case i == len(sizes)+1:
 			msg = []byte(strings.Repeat("compressible ", 40+e.rng.Intn(40)))
 		default:
@@ -227,6 +301,17 @@ func (e *engine) runC12() {
 		}
 		if big {
 			e.decCase(keys[(i+1)%3].priv, ctx, ct, "wrong-key", mustErr, msg, nil)
+			// tampering with a 64 KiB+ message: inside the body (first, middle, a random byte), in the
+			// tag, truncation by one byte and by one S2 block, extension; wrong context
+			for _, off := range []int{36, len(ct) / 2, 37 + e.rng.Intn(len(ct)-54), len(ct) - 16, len(ct) - 1} {
+				m := clone(ct)
+				m[off] ^= 1 << e.rng.Intn(8)
+				e.decCase(k.priv, ctx, m, "big-bit-flip", mustErr, msg, nil)
+			}
+			e.decCase(k.priv, ctx, ct[:len(ct)-1], "big-truncated", mustErr, msg, nil)
+			e.decCase(k.priv, ctx, ct[:len(ct)-4096], "big-truncated", mustErr, msg, nil)
+			e.decCase(k.priv, ctx, append(clone(ct), 0), "big-extended", mustErr, msg, nil)
+			e.decCase(k.priv, ctx+"x", ct, "big-wrong-context", mustErr, msg, nil)
 			continue
 		}
 		for j := 1; j < 3; j++ {
@@ -324,6 +409,60 @@ func (e *engine) runC12() {
 	}
 	for t := 0; t < 20*e.a.Scale; t++ {
 		e.decCase(keys[t%3].priv, encCtxs[t%len(encCtxs)], e.rng.Bytes(81+e.rng.Intn(400)), "random-long", mustErr, nil, nil)
+	}
+	// context matrix over format-like contexts: a message encrypted under one context must decrypt
+	// under that context and under NO other entry of the list
+	{
+		e.rep.Require("dec.via-wrapper:cross-context-matrix", "dec.via-direct:cross-context-matrix", "enc.via-wrapper:format-context", "enc.via-direct:format-context")
+		k := keys[1]
+		lim := len(formatCtxs)
+		for mi, msg := range [][]byte{{}, []byte("short message"), e.rng.Bytes(200)} {
+			for a := 0; a < lim; a++ {
+				if mi > 0 && (a+mi)%3 != 0 && e.a.Scale == 1 {
+					continue
+				}
+				ct := e.encCase(k.pub, formatCtxs[a], msg, "format-context", bptr(true))
+				if ct == nil {
+					continue
+				}
+				e.decCase(k.priv, formatCtxs[a], ct, "round-trip", wantMsg(msg), nil, nil)
+				for b := 0; b < lim; b++ {
+					if b == a || (mi > 0 && b > 8 && e.a.Scale == 1) {
+						continue
+					}
+					e.note = fmt.Sprintf("[a %d-byte message encrypted under context %q, decrypted under the different context %q]", len(msg), formatCtxs[a], formatCtxs[b])
+					e.decCase(k.priv, formatCtxs[b], ct, "cross-context-matrix", mustErr, msg, nil)
+					e.note = ""
+				}
+			}
+		}
+	}
+	// nil and foreign key values through the wrappers: an error, never a panic
+	{
+		k := keys[0]
+		ct, _ := peer.EncryptToEd25519(k.pub, encCtxs[0], []byte("nil-key"))
+		for _, c := range []struct {
+			class string
+			sk    crypto.PrivKey
+			pk    crypto.PubKey
+		}{
+			{"nil-interface", nil, nil},
+			{"nil-pointer", (*crypto.Ed25519PrivateKey)(nil), (*crypto.Ed25519PublicKey)(nil)},
+			{"foreign", &stubKey{raw: clone(k.priv)}, &stubPub{raw: clone(k.pub)}},
+		} {
+			impl := outcome(func() ([]byte, error) { return peer.DecryptWithPrivKey(c.sk, encCtxs[0], clone(ct)) })
+			mon := ""
+			if impl != "err" {
+				mon = "DecryptWithPrivKey with a " + c.class + " key: want an error, got " + lib.Trunc(impl)
+			}
+			e.rep.Compare("dec nil-key "+c.class, "err", impl, "dec.nil-key", "encrypt.dec:key-"+c.class, mon)
+			impl = outcome(func() ([]byte, error) { return peer.EncryptToPubKey(c.pk, encCtxs[0], []byte("m")) })
+			mon = ""
+			if impl != "err" {
+				mon = "EncryptToPubKey with a " + c.class + " key: want an error, got " + lib.Trunc(impl)
+			}
+			e.rep.Compare("enc nil-key "+c.class, "err", impl, "enc.nil-key", "encrypt.enc:key-"+c.class, mon)
+		}
 	}
 	// unusable recipient keys
 	for _, v := range smallOrderEncodings() {
